@@ -715,6 +715,8 @@ def run(rep, rng, tier):
     stats = {'no_generator': set(), 'raised': {}}
     cases = []
     tmpdir = tempfile.mkdtemp(prefix='c05_')
+    import atexit, shutil
+    atexit.register(shutil.rmtree, tmpdir, True)
     reps = 2 if tier == 'quick' else 6
     exercised = set()
     for qual in sorted(funcs):
